@@ -366,6 +366,15 @@ class World:
                 s = "".join(self.chroms[name])
                 for i in range(0, len(s), width):
                     f.write(s[i:i + width] + "\n")
+        if not gz:
+            # the index is written here, once: runs that share this file in parallel would otherwise race to build it lazily
+            with open(path + ".fai", "w") as f:
+                off = 0
+                for name in self.chrom_order:
+                    n = len(self.chroms[name])
+                    off += len(name) + 2
+                    f.write("%s\t%d\t%d\t%d\t%d\n" % (name, n, off, width, width + 1))
+                    off += n + (n + width - 1) // width
 
     def gtf_lines(self, with_meta=True, exon_ids=None, id_map=None):
         """id_map: optional dict old id -> new id for genes/transcripts (for C17 collision worlds).
